@@ -228,8 +228,13 @@ Verdict(v) ==
   /\ UNCHANGED <<W, inst, cache, wire, nval, dev, nodev>>
   /\ Track
 
-Env == \/ \E v \in Inst, a \in DOMAIN W.certs : NewValidator(v, a)
-       \/ \E v \in Inst, p \in DOMAIN W.pkts : Validate(v, p)
+\* every name a world may use (model-checked worlds and recorded random worlds); a constant set, so that TLC
+\* labels the transitions with the action and its parameters
+NameUniverse == {"RA", "RB", "RAx", "RAf", "RAo", "A1", "A2", "A3", "X", "B1", "Z",
+                 "R1", "R2", "R3", "R4", "R5", "C1", "C2", "C3", "C4", "C5", "C6", "C7", "C8",
+                 "P1", "P2", "P3", "P4", "P5", "P6", "P7", "P8", "P9", "P10"}
+Env == \/ \E v \in Inst, a \in NameUniverse : NewValidator(v, a)
+       \/ \E v \in Inst, p \in NameUniverse : Validate(v, p)
        \/ \E v \in Inst, kind \in {"yes", "nack", "timeout", "absent"} : FetchReply(v, kind)
 Internal == \E v \in Inst : CheckSchema(v) \/ UseAnchor(v) \/ UseCache(v) \/ Fetch(v) \/ VerifySig(v) \/ Verdict(v)
 Next == Env \/ Internal
